@@ -110,19 +110,32 @@ def run_fault(spec: Dict[str, Any], fault: Dict[str, Any], mode_name: str, strea
     return res
 
 
-def _pass_through_extenders(n: int) -> Any:
-    """n extenders of different priority that wrap every hook and only call through."""
+def _mk_pass_classes() -> Any:
     from mloda.steward import Extender, ExtenderHook
-    out = set()
-    for k in range(n):
-        def wraps(self: Any) -> Any:
+
+    class VerifPassA(Extender):
+        """Wraps every hook and only calls through (module-level name: the THREADING back end pickles extenders for its manager)."""
+        priority = 10
+
+        def wraps(self) -> Any:
             return {ExtenderHook.FEATURE_GROUP_CALCULATE_FEATURE, ExtenderHook.VALIDATE_INPUT_FEATURE, ExtenderHook.VALIDATE_OUTPUT_FEATURE}
 
-        def call(self: Any, func: Any, *a: Any, **kw: Any) -> Any:
+        def __call__(self, func: Any, *a: Any, **kw: Any) -> Any:
             return func(*a, **kw)
-        cls = type(f"VerifPass{k}", (Extender,), {"wraps": wraps, "__call__": call, "priority": 10 * (k + 1)})
-        out.add(cls())
-    return out
+
+    class VerifPassB(VerifPassA):
+        priority = 20
+    return VerifPassA, VerifPassB
+
+
+VerifPassA, VerifPassB = _mk_pass_classes()
+VerifPassA.__qualname__ = "VerifPassA"
+VerifPassB.__qualname__ = "VerifPassB"
+
+
+def _pass_through_extenders(n: int) -> Any:
+    """two extenders of different priority that wrap every hook and only call through"""
+    return {VerifPassA(), VerifPassB()}
 
 
 def run(rep: vlib.Reporter, tier: str, seed: int) -> None:
